@@ -49,6 +49,10 @@ CONDS = {
     "A == 1 || A == 2": lambda t: int(_val(t, "A") in (1, 2)),
     # two operators of equal precedence: left to right (stays valid for an empty A: unary minus)
     "A - 1 - 1 == 0": lambda t: int(_val0(t, "A") - 2 == 0),
+    # `defined NAME` without parentheses followed by operands that decide the result
+    "!defined A && defined B": lambda t: int("A" not in t and "B" in t),
+    # a zero divisor in an operand that is not evaluated (guard idiom)
+    "A != 0 && 10 / A > 1": lambda t: int(_val(t, "A") != 0 and 10 // _val(t, "A") > 1),
 }
 
 
